@@ -104,11 +104,41 @@ def check_table(ctx, db, fn, ref, tname):
         consts = {s["name"] for s in sites if s["kind"] == "const"} | ({E} if any(s["kind"] == "err" for s in sites) else set())
         froms = [s for s in sites if s["kind"] == "from"]
         problems = []
+        classes = set()
+        expanded = False
+        if exp["from"] and not froms and {A, D} <= consts:
+            # `if actor == x { Allow } else { Deny }` is Authorization::from(actor == x) written out
+            allow_b = [s["bb"] for s in sites if s["kind"] == "const" and s["name"] == A]
+            deny_b = [s["bb"] for s in sites if s["kind"] == "const" and s["name"] == D]
+
+            def eq_cls(f, pos):
+                if f[0] == "bool" and f[2] is pos:
+                    return classify_eq(f[1])
+                return None
+            got = set()
+            okx = True
+            for blocks_, pos in ((allow_b, True), (deny_b, False)):
+                for b2 in blocks_:
+                    found = None
+                    for (e0, e1, lab, facts) in cfg.all_edge_facts(db, fn):
+                        for f in facts:
+                            c = eq_cls(f, pos)
+                            if c and not c.startswith("other:"):
+                                okd, al, _ = rules.dom_check(db, fn, [b2], lambda g_, c=c, pos=pos: eq_cls(g_, pos) == c)
+                                if okd and al:
+                                    found = c
+                    if found:
+                        got.add(found)
+                    else:
+                        okx = False
+            if okx and got:
+                expanded = True
+                classes |= got
+                consts = consts - {A, D}
         if consts != exp["consts"]:
             problems.append("outcomes %s, expected %s" % (sorted(consts), sorted(exp["consts"])))
-        if bool(froms) != bool(exp["from"]):
+        if bool(froms or expanded) != bool(exp["from"]):
             problems.append("%s actor comparison" % ("unexpected" if froms else "missing"))
-        classes = set()
         for s in froms:
             for leaf in table.bool_leaves(fn, s["cond"]):
                 leaf = peel(leaf)
@@ -121,7 +151,7 @@ def check_table(ctx, db, fn, ref, tname):
                     problems.append("authorization derives from %s, not from an equality with the acting key" % nshow(leaf)[:100])
                 else:
                     classes.add(c)
-        if exp["from"] and froms and not (classes and classes <= (exp["all_eq"] or exp["from"]) and classes >= exp["from"]):
+        if exp["from"] and (froms or expanded) and not (classes and classes <= (exp["all_eq"] or exp["from"]) and classes >= exp["from"]):
             problems.append("actor is compared with %s, expected %s" % (sorted(classes), sorted(exp["from"])))
         if exp["all_eq"]:
             alleq = set()
